@@ -2,6 +2,7 @@
 T = "monkeytype/typing.py"
 E = "monkeytype/encoding.py"
 S = "monkeytype/db/sqlite.py"
+TR = "monkeytype/tracing.py"
 MUTANTS = {
     "c04_required_any": {
         "props": ["C04"],
@@ -128,5 +129,65 @@ MUTANTS = {
     "c09_limit_in_subquery": {
         "props": ["C09"],
         "edits": [(S, "    FROM {table}\n    WHERE\n", "    FROM (SELECT * FROM {table} LIMIT 50)\n    WHERE\n")],
+    },
+    "c02_drop_kwonly": {
+        "props": ["C02"],
+        "edits": [(TR, "arg_names = code.co_varnames[: code.co_argcount + code.co_kwonlyargcount]", "arg_names = code.co_varnames[: code.co_argcount]")],
+    },
+    "c02_log_every_yield": {
+        "props": ["C02"],
+        "edits": [(TR, "                trace.add_yield_type(typ)\n", "                trace.add_yield_type(typ)\n                self.logger.log(trace)\n")],
+    },
+    "c02_last_yield_only": {
+        "props": ["C02"],
+        "edits": [(TR, "            self.yield_type = cast(type, Union[self.yield_type, typ])", "            self.yield_type = typ")],
+    },
+    "c02_cache_by_name": {
+        "props": ["C02"],
+        "edits": [(TR, "        if code not in self.cache:\n            self.cache[code] = get_func(frame)\n        return self.cache[code]", "        if code.co_name not in self.cache:\n            self.cache[code.co_name] = get_func(frame)\n        return self.cache[code.co_name]")],
+    },
+    "c02_return_on_exception": {
+        "props": ["C02"],
+        "edits": [(TR, "            if last_opcode in RETURN_OPCODES:\n                trace.return_type = typ", "            trace.return_type = typ")],
+    },
+    "c02_no_delete": {
+        "props": ["C02"],
+        "edits": [(TR, "            del self.traces[frame]\n", "")],
+    },
+    "c02_await_regress": {
+        "props": ["C02"],
+        "edits": [(TR, "            if not frame.f_code.co_flags & inspect.CO_COROUTINE:\n                trace.add_yield_type(typ)", "            trace.add_yield_type(typ)")],
+    },
+    "c02_return_const_regress": {
+        "props": ["C02"],
+        "edits": [(TR, 'for name in ("RETURN_VALUE", "RETURN_CONST")', 'for name in ("RETURN_VALUE",)')],
+    },
+    "c02_locals_at_return": {
+        "props": ["C02"],
+        "edits": [(TR, "            del self.traces[frame]\n", "            del self.traces[frame]\n            for name in list(trace.arg_types):\n                if name in frame.f_locals and frame.f_code.co_flags & inspect.CO_GENERATOR:\n                    trace.arg_types[name] = get_type(frame.f_locals[name], max_typed_dict_size=self.max_typed_dict_size)\n")],
+    },
+    "c02_skip_property_setter_check": {
+        "props": ["C02"],
+        "edits": [(TR, "    elif isinstance(val, property) and (val.fset is None) and (val.fdel is None):\n        cand = cast(Callable[..., Any], val.fget)", "    elif isinstance(val, property) and (val.fset is not None):\n        cand = cast(Callable[..., Any], val.fget)")],
+    },
+    "c18_inverted": {
+        "props": ["C18"],
+        "edits": [(TR, "random.randrange(self.sample_rate) != 0:", "random.randrange(self.sample_rate) == 0:")],
+    },
+    "c18_sample_on_return": {
+        "props": ["C18"],
+        "edits": [(TR, "        trace = self.traces.get(frame)\n        if trace is None:\n            return\n", "        trace = self.traces.get(frame)\n        if trace is None:\n            return\n        if self.sample_rate and self.sample_rate > 1 and random.randrange(50) == 0:\n            return\n")],
+    },
+    "c18_rate_ignored": {
+        "props": ["C18"],
+        "edits": [("monkeytype/tracing.py", "    sys.setprofile(CallTracer(logger, max_typed_dict_size, code_filter, sample_rate))", "    sys.setprofile(CallTracer(logger, max_typed_dict_size, code_filter))")],
+    },
+    "c18_resumption_regress": {
+        "props": ["C18"],
+        "edits": [(TR, "        if _is_resumption(frame):\n", "        if False and _is_resumption(frame):\n")],
+    },
+    "c18_off_by_one_rate": {
+        "props": ["C18"],
+        "edits": [(TR, "random.randrange(self.sample_rate) != 0:", "random.randrange(self.sample_rate + 1) != 0:")],
     },
 }
